@@ -29,3 +29,12 @@ ITEM('trait StatusExt')
 IMPL('impl StatusExt for StatusCode')
 FN('is_redirect_retaining_status', props=['C15'], ret='r', ensures=[('C15.retaining_is_307_308', 'r == (self.0 == 307 || self.0 == 308)')])
 END()
+RAW('''
+use crate::http::{HeaderMap, has_field, lower};
+// N9: `headers.iter().has(key, value)` / `.has_expect_100()` (HeaderIterExt: `filter(|i| i.0 == key).any(|i| i.1 == value)`):
+// is there a field with that name (names compare case-insensitively) whose value is exactly `value`
+#[verifier::external_body]
+pub fn headers_has(headers: &HeaderMap, key: &str, value: &str) -> (r: bool)
+    ensures r == has_field(headers.entries(), lower(str_bytes(key)), str_bytes(value))
+{ unimplemented!() }
+''')
